@@ -20,7 +20,7 @@ ROOT = os.path.dirname(os.path.dirname(os.path.abspath(__file__)))
 
 FUNC_TEXT = {"fA": "func(a: u32) -> u32", "fB": "func(b: u32, c: u32)"}
 IFACE_TEXT = {"Ii": "interface { x: func(a: u32) -> u32; }", "Ik": "interface { y: func(b: u32, c: u32); }"}
-PKG_NAME = {"wp": "test:prov", "wc": "test:cons", "wa": "test:amb", "wm": "test:mid", "wt": "test:tgt", "wv": "test:vcons",
+PKG_NAME = {"wp": "test:prov", "wc": "test:cons", "wa": "test:amb", "wm": "test:mid", "wt": "test:tgt", "wv": "test:vcons", "wo": "test:odd",
             "nope": "test:nope", "self": "test:comp"}
 
 
@@ -127,6 +127,11 @@ def pool():
         # several named arguments, a later one instantiating another package (discovery must look at all of them)
         ("let", "c", new(C, named("f", f), named("ns:p/i", i, True), named("k", acc(new("wm", inf("i")), "k")))),
         ("let", "c", new(C, named("k", acc(new("wm", named("i", acc(new(P), "i"))), "k")), named("f", acc(new(P), "f")), FILL)),
+        # a package whose import names carry `@` and `/` in unusual places; `dep` matches none of them
+        ("let", "o", new("wo", named("dep", f), FILL)),
+        ("let", "dep", acc(p, "f")),
+        ("let", "o", new("wo", inf("dep"), FILL)),
+        ("let", "o", new("wo", FILL)),
         # a function *type* declared (and thereby exported) under the name of a function export (C11 only)
         ("type", "run", "tfun", "type run = func(a: u32) -> u32;"),
     ]
@@ -304,7 +309,7 @@ def emit():
             if k[0] == "inst":
                 names |= set(k[1].keys())
     # identifiers used for access / inference are looked up as names too
-    names |= {"i", "k", "j", "f", "x", "nope", "p", "c", "m", "a", "g", "w", "h", "q", "y", "run", "t", "v", "z"}
+    names |= {"i", "k", "j", "f", "x", "nope", "p", "c", "m", "a", "g", "w", "h", "q", "y", "run", "t", "v", "z", "o", "dep"}
     for w in WORLDS.values():
         names |= {n for n, _, _ in w[2] + w[3]}
     t = ["---- MODULE Lib_wacpool ----", "\\* GENERATED by lib/universe_wac.py -- do not edit", "EXTENDS TLC", ""]
